@@ -5,7 +5,7 @@ source; Gen/EffectsAlias.lean holds one `decide` obligation per public function 
 reachable from a parameter; for the copy=False paths `safeExcept`: only the first parameter may be written);
 Props/C13.lean holds the soundness theorem of the analysis.  The dynamic part snapshots every argument before a real
 call and compares afterwards (also when the call raises); it is the failing-input search and validates the translator."""
-import sys, inspect, re
+import sys, inspect, re, time
 from common import *  # noqa
 import effects_common as ec
 import effects_inputs as ei
@@ -60,7 +60,9 @@ def run_task(task):
     name = task['function']
     f = getattr(bct, name)
     rs = np.random.RandomState(task['bseed'])
-    kw = ei.build(name, f, task['kind'], rs, task.get('flags') or None)
+    kw = ei.build(name, f, task['kind'], rs, task.get('flags') or None, n=task.get('n'))
+    if kw is not None and task.get('n') and 'itr' in kw:
+        kw['itr'] = 1
     out = {'task': task, 'fails': [], 'status': 'ok', 'arrays': 0, 'notes': []}
     if kw is None:
         out['status'] = 'nobuild'
@@ -71,7 +73,9 @@ def run_task(task):
     if task['copy'] is False:
         kw['copy'] = False
     before = ei.deep_copy(kw)
-    st = call(lambda: f(**kw), t=T_CALL)
+    t0 = time.time()
+    st = call(lambda: f(**kw), t=task.get('t', T_CALL))
+    out['secs'] = time.time() - t0
     out['status'] = st[0] if st[0] != 'exc' else 'exc:' + st[1].split(':')[0]
     first = next((p for p in params if p not in ('seed', 'copy')), None)
     for p, v0 in before.items():
@@ -116,6 +120,26 @@ def run_task(task):
             elif shares:
                 out['notes'].append('result_shares_memory_with_argument')
     return out
+
+
+SIZES = (12, 33, 65, 130, 220, 260)
+
+
+def run_sizes(task):
+    """SIZE AXIS: the same routine on n = 12, 33, 65, 130, 220, 260 nodes (fast paths that only switch on for larger inputs),
+    ascending, until one call gets expensive (cost bound per routine); each step is an ordinary snapshot task"""
+    outs, spent = [], 0.0
+    for n in SIZES:
+        o = run_task(dict(task, n=n, t=task['budget']))
+        outs.append(o)
+        spent += o.get('secs', 0.0)
+        if o['status'] in ('timeout', 'nobuild') or o.get('secs', 0.0) > 0.6 * task['budget'] or spent > 1.5 * task['budget']:
+            break
+    return outs
+
+
+def dispatch(task):
+    return run_sizes(task) if task.get('mode') == 'sizes' else [run_task(task)]
 
 
 def main():
@@ -181,15 +205,31 @@ def main():
                         for cp in ([None, False] if has_copy else [None]):
                             tasks.append({'function': name, 'kind': kind, 'flags': fl, 'bseed': int(ck.rs.randint(2 ** 31)),
                                           'seed': int(ck.rs.randint(2 ** 31)), 'copy': cp})
-    if not ck.replay:       # never group by routine or flavour: every worker interleaves routines, flavours, flags, sizes
+    if not ck.replay:
+        for name in sorted(pub):
+            has_copy = 'copy' in inspect.signature(pub[name]).parameters
+            # special inputs (default flags): edgeless float / int / bool, single node, -0.0 zeros with max exactly 1.0,
+            # dyadic row-stochastic matrices and probability vectors whose float sum is exactly 1.0, float32
+            for kind in ei.SPECIAL_KINDS:
+                for _ in range(1 if ck.tier == 'quick' else 4):
+                    for cp in ([None, False] if has_copy else [None]):
+                        tasks.append({'function': name, 'kind': kind, 'flags': {}, 'bseed': int(ck.rs.randint(2 ** 31)),
+                                      'seed': int(ck.rs.randint(2 ** 31)), 'copy': cp})
+            # size axis
+            for kind in (('und', 'dir') if ck.tier == 'quick' else ('und', 'dir', 'bin', 'wdiag', 'signed', 'int', 'bool', 'stoch')):
+                tasks.append({'mode': 'sizes', 'function': name, 'kind': kind, 'flags': {}, 'bseed': int(ck.rs.randint(2 ** 31)),
+                              'seed': int(ck.rs.randint(2 ** 31)), 'copy': None, 'budget': 2.0 if ck.tier == 'quick' else 12.0})
+        # never group by routine or flavour: every worker interleaves routines, flavours, flags, sizes
         tasks = [tasks[int(i)] for i in ck.rs.permutation(len(tasks))]
-    results = pmap(run_task, tasks)
+    results = [o for outs in pmap(dispatch, tasks) for o in outs]
     ran = {}
     for r in results:
         t = r['task']
         fn = t['function']
         ck.count('status:' + r['status'].split(':')[0])
         ck.count('kind:' + t['kind'])
+        if t.get('n'):
+            ck.count('n=%d' % t['n'])
         if r['status'] != 'nobuild':
             ck.count('real_calls')
             ck.count('argument_snapshots_compared', r['arrays'])
@@ -202,10 +242,10 @@ def main():
                 ck.count(n + ':' + fn)
         nt = r['status'] == 'ok' and r['arrays'] > 0
         ck.case(sample={'function': fn, 'kind': t['kind'], 'copy': t['copy'], 'arrays': r['arrays']} if nt and fn[0] in 'cgr' else None,
-                nontrivial_key=digest([fn, t['kind'], t['bseed'], t['copy'], t.get('flags')]) if nt else None)
+                nontrivial_key=digest([fn, t['kind'], t['bseed'], t['copy'], t.get('flags'), t.get('n')]) if nt else None)
         for pred, p, info in r['fails']:
-            ck.violation(fn, pred, {'task': t, 'call': '%s(<%s arguments, builder seed %d>%s%s)' % (
-                fn, t['kind'], t['bseed'], ''.join(', %s=%r' % kv for kv in sorted((t.get('flags') or {}).items())),
+            ck.violation(fn, pred, {'task': {k: v for k, v in t.items() if k not in ('mode', 'budget')}, 'call': '%s(<%s%s arguments, builder seed %d>%s%s)' % (
+                fn, t['kind'], (' n=%d' % t['n']) if t.get('n') else '', t['bseed'], ''.join(', %s=%r' % kv for kv in sorted((t.get('flags') or {}).items())),
                 ', copy=False' if t['copy'] is False else ''), 'parameter': p, 'info': info, 'status': r['status'],
                 'earlier_task': (r.get('earlier') or {}).get(p) if pred == 'argument-modified-by-later-call' else None},
                 {'kind': t['kind'], 'parameter': p})
